@@ -284,7 +284,8 @@ HubUpdateGlobal(w, sender, msg) ==
   ELSE IF msg.hooks # 0 /\ cfg.airdrop = "" THEN HErr(w, "hub: airdrop registry not registered")
   ELSE LET dv == DelegatedVals(w)
        IN HOk([w EXCEPT !.hub.lastIdx = w.now],
-              [i \in 1..Len(dv) |-> WdRewardMsg(dv[i])]
+              [i \in 1..msg.hooks |-> WasmMsg(cfg.airdrop, [k |-> "fabricate_claim"], <<>>)]
+              \o [i \in 1..Len(dv) |-> WdRewardMsg(dv[i])]
               \o << WasmMsg(cfg.dispatcher, [k |-> "swap_to_reward_denom", stsei_total_bonded |-> w.hub.bondSt,
                                              bsei_total_bonded |-> w.hub.bondB], <<>>),
                     WasmMsg(cfg.dispatcher, [k |-> "dispatch_rewards"], <<>>) >>)
@@ -342,10 +343,13 @@ HubClaimAirdrop(w, sender, msg) ==
                  WasmMsg("hub", [k |-> "swap_hook", airdrop_token_contract |-> msg.airdrop_token_contract,
                                  airdrop_swap_contract |-> msg.airdrop_swap_contract], <<>>) >>)
 
-\* the airdrop token / pair contracts are opaque (DESIGN.md E5): the balance query has no answer
+\* swap_hook: the hub sends its whole balance of the airdrop token to the pair; the balance query is answered by the
+\* airdrop-token stub only (any other address: no such contract)
 HubSwapHook(w, sender, msg) ==
   IF sender # "hub" THEN HErr(w, "hub: unauthorized")
-  ELSE HErr(w, "hub: airdrop token contract not modelled")
+  ELSE IF msg.airdrop_token_contract # "airtoken" THEN HErr(w, "hub: airdrop token query failed")
+  ELSE IF w.air.hub = 0 THEN HErr(w, "hub: no airdrop token balance")
+  ELSE HOk(w, <<WasmMsg("airtoken", [k |-> "send", contract |-> msg.airdrop_swap_contract, amount |-> w.air.hub, hook |-> "swap"], <<>>)>>)
 
 -----------------------------------------------------------------------------
 \* contract.rs execute
